@@ -26,6 +26,8 @@ def stateful_program(rng):
          "class Chain<T> { public static int made = 0; public static Chain<T> empty = new Chain<T>(); public Chain<T> next; public constructor() -> Chain<T> { made = made + 1; next = null; return this; }",
          "    public function isEmpty() -> boolean { return this == empty; } public function count() -> int { return made; } }",
          "class A { public int x = %d; public constructor() -> A = default; }" % n,
+         "class TankOf<T> { public int capacity = %d; public T cargo; public constructor() -> TankOf<T> = default; public function cap() -> int { return capacity; } }" % (k + 1),
+         "class FuelTank extends TankOf<A> { public int level = 5; public constructor() -> FuelTank { super(); return this; } public function total() -> int { return capacity + level; } }",
          "class B extends A { public int y = %d; public constructor() -> B = default; }" % k,
          "class Solo { public int s = 9; public constructor() -> Solo = default; }",
          "class Held { @tracked public qubit hq; public constructor() -> Held = default; }",
@@ -36,6 +38,7 @@ def stateful_program(rng):
          "    final int m2 = %d; int[n] arr; int[m2] arr2; bit[n] flags;" % (k + 1),
          "    echo(\"session \" + Session.id + \" \" + Session.second + \" \" + Session.tag + \" \" + Session.fz + \" issued \" + Ticket.issued);",
          "    Chain<int> cn = new Chain<int>(); echo(cn.isEmpty()); echo(cn.count()); Chain<A> ca = new Chain<A>(); echo(ca.count());",
+         "    FuelTank ft = new FuelTank(); echo(ft.capacity); echo(ft.total()); echo(ft.cap());",
          "    echo(Counter.hit()); echo(Counter.hit()); echo(Counter.hist[1]);",
          "    if (Counter.hits == 2) { echo(\"two\"); } else { echo(\"not two\"); }",
          "    Box<A> ba = new Box<A>(new A()); Box<B> bb = new Box<B>(new B()); Box<B> bc = new Box<>(new B());",
@@ -129,6 +132,9 @@ def run(chk):
             continue
         if a.startswith(("err Semantic", "err Parse", "err Lexical")):
             rejected[kind] = rejected.get(kind, 0) + 1
+            if kind == "stateful" and bad is None:
+                # these programs are valid by construction: a rejection means the family checks nothing
+                bad = (src, kind, ln, 0, a[:120], "an accepted program", "stateful program rejected by the front end")
             continue
         if bad is None:
             shared, _, fresh = a.partition(" ## ")
